@@ -4,23 +4,24 @@ namespace Jug.Generated.Dump
 open Jug.FS
 /-- file-system operation sequences of the real file_store.dump / resave_pack, recorded for representative values -/
 def sequences : List (String × List FOp) := [
-  ("pickle-small", [.other "open-jugtemp16828.jugtmp", .other "write-to-unknown", .other "write-to-unknown", .other "write-to-unknown", .flush, .flush, .fsync, .close, .fsyncDir, .other "rename-unexpected"]),
-  ("pickle-large", [.other "open-jugtemp16828.jugtmp", .other "write-to-unknown", .other "write-to-unknown", .other "write-to-unknown", .other "write-to-unknown", .other "write-to-unknown", .flush, .flush, .fsync, .close, .fsyncDir, .other "rename-unexpected"]),
-  ("str-large", [.other "open-jugtemp16828.jugtmp", .other "write-to-unknown", .other "write-to-unknown", .other "write-to-unknown", .other "write-to-unknown", .other "write-to-unknown", .flush, .flush, .fsync, .close, .fsyncDir, .other "rename-unexpected"]),
-  ("none", [.other "open-jugtemp16828.jugtmp", .flush, .fsync, .close, .fsyncDir, .other "rename-unexpected"]),
-  ("npy", [.other "open-jugtemp16828.jugtmp", .other "write-to-unknown", .other "write-to-unknown", .flush, .fsync, .close, .fsyncDir, .other "rename-unexpected"]),
-  ("npy-large", [.other "open-jugtemp16828.jugtmp", .other "write-to-unknown", .other "write-to-unknown", .flush, .fsync, .close, .fsyncDir, .other "rename-unexpected"]),
-  ("npy-empty", [.other "open-jugtemp16828.jugtmp", .other "write-to-unknown", .flush, .fsync, .close, .fsyncDir, .other "rename-unexpected"]),
-  ("npy-0d", [.other "open-jugtemp16828.jugtmp", .other "write-to-unknown", .other "write-to-unknown", .flush, .fsync, .close, .fsyncDir, .other "rename-unexpected"]),
-  ("npy-fortran", [.other "open-jugtemp16828.jugtmp", .other "write-to-unknown", .other "write-to-unknown", .flush, .fsync, .close, .fsyncDir, .other "rename-unexpected"]),
-  ("npy-strided", [.other "open-jugtemp16828.jugtmp", .other "write-to-unknown", .other "write-to-unknown", .flush, .fsync, .close, .fsyncDir, .other "rename-unexpected"]),
-  ("npy-object-small", [.other "open-jugtemp16828.jugtmp", .other "write-to-unknown", .other "write-to-unknown", .flush, .fsync, .close, .fsyncDir, .other "rename-unexpected"]),
-  ("npy-object-large", [.other "open-jugtemp16828.jugtmp", .other "write-to-unknown", .other "write-to-unknown", .flush, .fsync, .close, .fsyncDir, .other "rename-unexpected"]),
-  ("npy-datetime", [.other "open-jugtemp16828.jugtmp", .other "write-to-unknown", .other "write-to-unknown", .flush, .fsync, .close, .fsyncDir, .other "rename-unexpected"]),
-  ("npy-compressed", [.other "open-jugtemp16828.jugtmp", .other "write-to-unknown", .other "write-to-unknown", .other "write-to-unknown", .other "write-to-unknown", .flush, .flush, .fsync, .close, .fsyncDir, .other "rename-unexpected"]),
-  ("dict-of-arrays", [.other "open-jugtemp16828.jugtmp", .other "write-to-unknown", .other "write-to-unknown", .other "write-to-unknown", .flush, .flush, .fsync, .close, .fsyncDir, .other "rename-unexpected"]),
-  ("resave-pack", [.lockGet, .other "open-jugtemp16828.jugtmp", .other "write-to-unknown", .other "write-to-unknown", .other "write-to-unknown", .flush, .flush, .fsync, .close, .fsyncDir, .other "rename-unexpected", .lockRelease]),
-  ("packed-overwrite-0", [.other "open-jugtemp16828.jugtmp", .other "write-to-unknown", .other "write-to-unknown", .other "write-to-unknown", .flush, .flush, .fsync, .close, .fsyncDir, .other "rename-unexpected", .lockGet, .other "open-jugtemp16828.jugtmp", .other "write-to-unknown", .other "write-to-unknown", .other "write-to-unknown", .flush, .flush, .fsync, .close, .fsyncDir, .other "rename-unexpected", .lockRelease])]
+  ("pickle-small", [.mkstemp, .write 2, .write 0, .write 24, .flush, .flush, .fsync, .close, .flush, .fsyncDir, .rename]),
+  ("pickle-large", [.mkstemp, .write 2, .write 34926, .write 46541, .write 34825, .write 11134, .flush, .flush, .fsync, .close, .flush, .fsyncDir, .rename]),
+  ("str-large", [.mkstemp, .write 2, .write 0, .write 0, .write 0, .write 126, .flush, .flush, .fsync, .close, .flush, .fsyncDir, .rename]),
+  ("none", [.mkstemp, .flush, .fsync, .close, .flush, .fsyncDir, .rename]),
+  ("npy", [.mkstemp, .write 128, .flush, .writeDirect 8000, .flush, .fsync, .close, .flush, .fsyncDir, .rename]),
+  ("npy-large", [.mkstemp, .write 128, .flush, .writeDirect 1600000, .flush, .fsync, .close, .flush, .fsyncDir, .rename]),
+  ("npy-empty", [.mkstemp, .write 128, .flush, .flush, .fsync, .close, .flush, .fsyncDir, .rename]),
+  ("npy-0d", [.mkstemp, .write 128, .flush, .writeDirect 8, .flush, .fsync, .close, .flush, .fsyncDir, .rename]),
+  ("npy-fortran", [.mkstemp, .write 128, .flush, .writeDirect 96, .flush, .fsync, .close, .flush, .fsyncDir, .rename]),
+  ("npy-strided", [.mkstemp, .write 128, .flush, .writeDirect 272, .flush, .fsync, .close, .flush, .fsyncDir, .rename]),
+  ("npy-object-small", [.mkstemp, .write 128, .write 160, .flush, .fsync, .close, .flush, .fsyncDir, .rename]),
+  ("npy-object-large", [.mkstemp, .write 128, .write 39048, .flush, .fsync, .close, .flush, .fsyncDir, .rename]),
+  ("npy-datetime", [.mkstemp, .write 128, .flush, .writeDirect 16, .flush, .fsync, .close, .flush, .fsyncDir, .rename]),
+  ("npy-compressed", [.mkstemp, .write 2, .write 0, .write 0, .write 1640, .flush, .flush, .fsync, .close, .flush, .fsyncDir, .rename]),
+  ("dict-of-arrays", [.mkstemp, .write 2, .write 0, .write 160, .flush, .flush, .fsync, .close, .flush, .fsyncDir, .rename]),
+  ("resave-pack", [.lockGet, .mkstemp, .write 2, .write 0, .write 59, .flush, .flush, .fsync, .close, .flush, .fsyncDir, .rename, .lockRelease]),
+  ("packed-overwrite-0", [.mkstemp, .write 2, .write 0, .write 26, .flush, .flush, .fsync, .close, .flush, .fsyncDir, .rename]),
+  ("packed-overwrite-1", [.lockGet, .mkstemp, .write 2, .write 0, .write 36, .flush, .flush, .fsync, .close, .flush, .fsyncDir, .rename, .lockRelease])]
 def packedOverwritePublishesFirst : Bool := true
 /-- the commands redis_store.dump sends that change the result key, per case (overwrite of an existing key) -/
 def redisDumpCommands : List (String × List String) := [
